@@ -4,11 +4,11 @@ package main
 // typestate / block rotation / matcher guards (C01, C17).
 
 import (
-	"sort"
 	"fmt"
 	"go/token"
 	"go/types"
 	"os"
+	"sort"
 	"strings"
 
 	"golang.org/x/tools/go/ssa"
